@@ -65,6 +65,7 @@ type Reporter struct {
 	counters  map[string]*int64
 	samples   []interface{}
 	nontriv   map[uint64]struct{}
+	nontrivN  int64 // cases counted by NonTrivialN (distinct by construction)
 	outcomes  map[string]int64
 	capped    []string
 	assume    []string
@@ -133,6 +134,14 @@ func (r *Reporter) NonTrivial(key string) {
 	s := h.Sum64()
 	r.mu.Lock()
 	r.nontriv[s] = struct{}{}
+	r.mu.Unlock()
+}
+
+// NonTrivialN counts n non-trivial cases that are distinct by construction (e.g. the schedules a
+// depth-first search enumerates: no two executions have the same choice sequence).
+func (r *Reporter) NonTrivialN(n int64) {
+	r.mu.Lock()
+	r.nontrivN += n
 	r.mu.Unlock()
 }
 
@@ -339,7 +348,7 @@ func (r *Reporter) writeEvidence(level, rule string, nviol int, knownSeen []stri
 	}
 	cov["counters"] = cnt
 	cov["evaluations"] = cnt["evaluations"]
-	cov["distinct_nontrivial"] = len(r.nontriv)
+	cov["distinct_nontrivial"] = int64(len(r.nontriv)) + r.nontrivN
 	cov["rule"] = rule
 	samples := r.samples
 	if len(samples) == 0 {
@@ -370,5 +379,5 @@ func (r *Reporter) writeEvidence(level, rule string, nviol int, knownSeen []stri
 		fmt.Fprintf(os.Stderr, "ERROR cannot write evidence: %v\n", err)
 	}
 	fmt.Printf("SUMMARY property=%s tier=%s evaluations=%d distinct_nontrivial=%d states=%d transitions=%d violations=%d known=%d exhaustive=%v wall=%.1fs\n",
-		r.ID, r.Tier, cnt["evaluations"], len(r.nontriv), cnt["states"], cnt["transitions"], nviol, len(knownSeen), len(r.capped) == 0, time.Since(r.start).Seconds())
+		r.ID, r.Tier, cnt["evaluations"], int64(len(r.nontriv))+r.nontrivN, cnt["states"], cnt["transitions"], nviol, len(knownSeen), len(r.capped) == 0, time.Since(r.start).Seconds())
 }
